@@ -226,6 +226,15 @@ func (m *Machine) addFunction(f FnSpec) {
 					return args[0]
 				}
 				return &object.Null{}
+			case "count":
+				// the number of calls of this function so far in the run, this one included
+				n := 0
+				for _, cl := range m.calls {
+					if cl.Name == f.Name {
+						n++
+					}
+				}
+				return &object.Integer{Value: int64(n)}
 			case "pack":
 				// the arguments as an array - the very slice the engine handed over, as a host function
 				// which wraps its arguments would return it
